@@ -73,6 +73,7 @@ class Gen:
         lines, flat = [], []
         incset = list(incset) + [d]
         exited = False
+        saved = None        # what was defined when the file was left: later text of the file defines nothing
         for _ in range(r.randrange(1, 5)):
             k = r.random()
             if k < .45 or depth >= 4:
@@ -120,12 +121,27 @@ class Gen:
                 if written == name: self.bare.append((target, list(incset)))
                 lines.append('.include "%s"' % written)
                 if not exited: flat += sub
+            elif k < .965 and depth > 0:
+                # .exit under a condition (the include-guard idiom): taken, it ends this file there and then -
+                # the still open conditional included; not taken, nothing happens
+                f = self.state['F']
+                taken = r.random() < .6
+                if taken: cond = r.choice(['.ifdef %s' % f, '.if 1', '.ifndef Fnone']) if f else r.choice(['.if 1', '.ifndef Fnone'])
+                else: cond = r.choice(['.ifdef Fnone', '.if 0', '.ifndef %s' % f if f else '.if 0'])
+                blk = [cond, '  .exit', '.endif']
+                lines += blk
+                if not exited:
+                    if taken:
+                        exited = True; saved = dict(self.state)
+                    else:
+                        flat += blk
             else:
                 lines.append('  .exit' if depth > 0 else '  nop')
                 if depth > 0 and not exited:
-                    exited = True
+                    exited = True; saved = dict(self.state)
                 elif not exited:
                     flat.append('  nop')
+        if saved is not None: self.state = saved
         if depth > 0 and not exited and r.random() < .12:
             # the file ends on an origin: what the includer emits next lands there
             self.n += 1
@@ -264,7 +280,7 @@ def run(tier, seed, model_ok):
     for g, main, flat in cases: depth[len(g.files)] += 1
     return {
         'evaluations': 2 * len(cases) + 3 + 2 * len(UNBALANCED), 'distinct_nontrivial': len({tuple(sorted((os.path.relpath(p, g.root), tuple(l)) for p, l in g.files.items())) for g, _, _ in cases}),
-        'rule': 'seeded random splits of a program (instructions, .equ, labels, .def, macro definitions and calls, .define/.ifdef, segment switches, optional .device) into a tree of files: includes by bare name from the includer\'s directory, a caller-supplied directory, a directory added by a relative or absolute .includepath just before; by sub-directory path; by absolute path; nesting up to 4, .exit in included files; each tree is written to a scratch directory and built with build_file, its flattened text with build_str; plus a missing-file case, the tree of the repaired .includepath defect and the exact trees of the recorded finding (constructs open across the boundary); distinct = distinct trees',
+        'rule': 'seeded random splits of a program (instructions, .equ, labels, .def, macro definitions and calls, .define/.ifdef, segment switches, optional .device) into a tree of files: includes by bare name from the includer\'s directory, a caller-supplied directory, a directory added by a relative or absolute .includepath just before; by sub-directory path; by absolute path; nesting up to 4, .exit in included files, plain and under a taken / untaken condition; each tree is written to a scratch directory and built with build_file, its flattened text with build_str; plus a missing-file case, the tree of the repaired .includepath defect and the exact trees of the recorded finding (constructs open across the boundary); distinct = distinct trees',
         'samples': [{os.path.relpath(p, cases[0][0].root): l for p, l in cases[0][0].files.items()}],
         'exhaustive': False,
         'distribution': {'trees': len(cases), 'trees_with_a_name_in_two_searched_directories(impl vs model only)': sum(1 for g, _, _ in cases if g.dup), 'flattened_programs_that_build': okc,
